@@ -26,7 +26,7 @@ Theorem C13_prompt_stop_partial : forall (t : list bpoint) (reach : list string)
 Proof. exact prompt_stop_activity. Qed.
 Print Assumptions C13_prompt_stop_partial.
 
-(* On the table regenerated from /repo/block/*.go by this run (after the repairs ca974a2, c53a06a, 03584e7): eight
+(* On the table regenerated from /repo/block/*.go by this run (after the repairs ca974a2, 0d6bd4f, 4176904): eight
    of the nine loops stop promptly, from every blocking operation, for every environment - no assumption. *)
 Theorem C13_prompt_stop_today_partial : forall (root : string) (reach : list string),
   In (root, reach) loop_reach ->
